@@ -274,6 +274,8 @@ func getKDCsStress(r *vh.Run) {
 }
 
 // trial runs one shared-client scenario and returns the recorded events.
+var stallPipes []*os.File
+
 func trial(t *testing.T, r *vh.Run, w *world, ck string, rnd *vh.Rand, bubble bool) []opEvent {
 	g := 2 + rnd.Intn(15)
 	nops := 4 + rnd.Intn(8)
@@ -462,10 +464,15 @@ func trial(t *testing.T, r *vh.Run, w *world, ck string, rnd *vh.Rand, bubble bo
 		<-tickDone
 	}
 	finished := make(chan struct{})
+	abandon := make(chan struct{})
+	wdBudget := 180 * time.Second
+	if v, err := time.ParseDuration(os.Getenv("C11_TRIAL_WATCHDOG")); err == nil && v > 0 && bubble {
+		wdBudget = v // for testing the watchdog itself
+	}
 	go func() {
 		select {
 		case <-finished:
-		case <-time.After(180 * time.Second):
+		case <-time.After(wdBudget):
 			buf := make([]byte, 4<<20)
 			n := runtime.Stack(buf, true)
 			d1 := string(buf[:n])
@@ -494,8 +501,17 @@ func trial(t *testing.T, r *vh.Run, w *world, ck string, rnd *vh.Rand, bubble bo
 			}
 			if b1, b2 := blocked(d1), blocked(d2); b1 != "" && b1 == b2 {
 				r.Violation("C11|deadlock|"+b1, "trial "+ck+" did not finish: the same goroutines are blocked in the same gokrb5 frames 5 s apart", map[string]any{"case": ck, "blocked": b1})
+			} else if bubble && r.Counter("observe_bubble_trials_abandoned_virtual_clock_stalled") < 10 {
+				// Nothing is blocked on a lock or a channel inside gokrb5: the bubble's virtual clock stands still, which happens
+				// when one of its goroutines waits for real I/O that never completes (a datagram dropped by a loaded loopback
+				// interface: the read deadline is virtual too). Not a verdict about gokrb5: the trial is abandoned and counted,
+				// the run goes on; ten of them in one run would be something else and make the run inconclusive.
+				r.Inc("observe_bubble_trials_abandoned_virtual_clock_stalled")
+				fmt.Fprintf(os.Stderr, "C11: trial %s abandoned (virtual clock stalled); goroutines:\n%s\n", ck, d2)
+				close(abandon)
+				return
 			} else {
-				r.Inconclusive("trial " + ck + " did not finish within 180 s; no stable set of goroutines blocked in gokrb5")
+				r.Inconclusive("trial " + ck + " did not finish within " + wdBudget.String() + "; no stable set of goroutines blocked in gokrb5")
 			}
 			os.Stderr.WriteString(d2)
 			r.Flush()
@@ -504,7 +520,22 @@ func trial(t *testing.T, r *vh.Run, w *world, ck string, rnd *vh.Rand, bubble bo
 	}()
 	pnc, pv, pw := false, "", ""
 	if bubble {
-		op, ov, _ := vh.Guard(func() { pcommon.AtVirtual(t, time.Hour, func() { pnc, pv, pw = vh.Guard(body) }) })
+		abandoned := false
+		op, ov, _ := vh.Guard(func() {
+			abandoned = pcommon.AtVirtualAbandonable(t, time.Hour, func() {
+				if os.Getenv("C11_FORCE_STALL_TRIAL") == ck {
+					// watchdog self-test: real I/O that never completes, inside the bubble
+					if pr, pw, err := os.Pipe(); err == nil {
+						stallPipes = append(stallPipes, pw) // keep the write end open
+						pr.Read(make([]byte, 1))
+					}
+				}
+				pnc, pv, pw = vh.Guard(body)
+			}, abandon)
+		})
+		if abandoned {
+			return nil
+		}
 		if op && !pnc {
 			if strings.Contains(ov, "main bubble goroutine has exited but blocked goroutines remain") {
 				// renewal goroutines of sessions that were replaced before their goroutine was started are never cancelled
